@@ -23,8 +23,8 @@ PERM_SETS = {"quick": 24, "thorough": 12}
 CASES = {"quick": 1200 + PERM_SETS["quick"], "thorough": 12000 + PERM_SETS["thorough"]}
 FLOOR = {"quick": 1100, "thorough": 11000}
 FLOOR_COUNTERS = {
-    "quick": {"pointer_events": 20000, "gabriel_graphs_checked": 350, "permutation_fits": 24 * 120 + 1000, "periodic_fits": 300, "tie_free_relation_cases": 600, "refitted_estimators": 350, "other_length_units": 250, "small_length_units": 100, "cell_given_after_construction": 120, "free_space_fits_next_to_a_periodic_bystander": 200, "weights_as_ranks_in_another_dtype": 300, "legal_fits_after_refused_fits": 300},
-    "thorough": {"pointer_events": 250000, "gabriel_graphs_checked": 3500, "permutation_fits": 12 * 5040 + 10000, "periodic_fits": 3000, "tie_free_relation_cases": 6000, "refitted_estimators": 3500, "other_length_units": 2500, "small_length_units": 1000, "cell_given_after_construction": 1200, "free_space_fits_next_to_a_periodic_bystander": 2000, "weights_as_ranks_in_another_dtype": 3500, "legal_fits_after_refused_fits": 3500},
+    "quick": {"pointer_events": 20000, "gabriel_graphs_checked": 280, "permutation_fits": 24 * 120 + 1000, "periodic_fits": 300, "tie_free_relation_cases": 600, "refitted_estimators": 350, "other_length_units": 250, "small_length_units": 70, "cell_given_after_construction": 120, "free_space_fits_next_to_a_periodic_bystander": 200, "weights_as_ranks_in_another_dtype": 300, "legal_fits_after_refused_fits": 300},
+    "thorough": {"pointer_events": 250000, "gabriel_graphs_checked": 2800, "permutation_fits": 12 * 5040 + 10000, "periodic_fits": 3000, "tie_free_relation_cases": 6000, "refitted_estimators": 3500, "other_length_units": 2500, "small_length_units": 700, "cell_given_after_construction": 1200, "free_space_fits_next_to_a_periodic_bystander": 2000, "weights_as_ranks_in_another_dtype": 3500, "legal_fits_after_refused_fits": 3500},
 }
 RULE = (
     "case = point set (1-4 dimensions, 2-150 points [<= 60 in Gabriel mode]; generic / collinear / duplicated / lattice), "
